@@ -4,6 +4,7 @@ A state is a filesystem image (de-duplicated on its hash after masking clock/cou
 from a menu.  Oracle on every transition that tune2fs reports as successful: the requested setting is in the superblock, no other
 superblock field changed except those on the operation's allow-list, every file is unchanged (independent tree digest) and the
 filesystem is consistent (e2fsck -fn = 0 and independent checker clean) -- after the e2fsck run tune2fs asked for, if it asked."""
+import zlib
 import os, json, re, struct, hashlib, shutil
 from vlib.common import *
 from vlib import fsweep
@@ -93,8 +94,8 @@ def step(j):
     src, hist, label = j
     _, argv, setting, allow = OPN[label]
     p = fsweep.worker_path('c11')
-    shutil.copyfile(src, p)
-    before = open(p, 'rb').read()
+    before = zlib.decompress(open(src, 'rb').read())          # states are kept compressed (images are mostly zeros; 16 k raw states once filled /dev/shm)
+    with open(p, 'wb') as f: f.write(before)
     rc, out = run([TUNE2FS] + argv + [p], timeout=120)
     after = open(p, 'rb').read()
     if rc != 0:
@@ -156,7 +157,7 @@ def step(j):
     dst = os.path.join(STATES, key)
     if not os.path.exists(dst):
         tmp = dst + '.%d' % os.getpid()
-        with open(tmp, 'wb') as f: f.write(after)
+        with open(tmp, 'wb') as f: f.write(zlib.compress(after, 1))
         os.replace(tmp, dst)
     return (label, bad, key, 'ok' if not bad else 'bad', out[-200:] if bad else '')
 
@@ -173,7 +174,7 @@ def main(tier, only=None):
     samples = []
     for b in bases:
         d0 = fsweep.base_data(b); k0 = state_key(d0)
-        with open(os.path.join(STATES, k0), 'wb') as f: f.write(d0)
+        with open(os.path.join(STATES, k0), 'wb') as f: f.write(zlib.compress(d0, 1))
         seen[k0] = (b,)
         level = [k0]
         for dep in range(1, depth + 1):
@@ -198,8 +199,8 @@ def main(tier, only=None):
             if not level: break
         else:
             frontier_left += len(level)
-        for k in list(os.listdir(STATES)):
-            pass
+        for k in list(os.listdir(STATES)):          # the next base starts from its own image: nothing stored so far is needed again
+            os.unlink(os.path.join(STATES, k))
     ck.add(evaluations=trans, distinct_nontrivial=len(seen), states=len(seen), transitions=trans, traces_validated_against_impl=trans,
            rule='BFS over tune2fs invocation sequences (menu of %d invocations: feature conversions, UUID, inode size, quota, labels, reserved blocks, error behaviour, intervals, mount options, RAID hints) from %d corpus images to depth %d; '
                 'states de-duplicated on the image hash with clock/counter fields masked; oracle per successful transition: requested setting present, no other superblock field changed outside a per-operation allow-list, '
@@ -215,7 +216,7 @@ def replay(path):
     TUNE2FS = tool('tune2fs'); E2FSCK = tool('e2fsck'); fsweep.init_scratch()
     STATES = os.path.join(scratch(), 'states'); os.makedirs(STATES)
     h = d['history']
-    cur = os.path.join(STATES, 'cur'); open(cur, 'wb').write(fsweep.base_data(h[0]))
+    cur = os.path.join(STATES, 'cur'); open(cur, 'wb').write(zlib.compress(fsweep.base_data(h[0]), 1))
     bad = []
     for l in h[1:]:
         label, bad, key, oc, txt = step((cur, (), l))
